@@ -7,7 +7,11 @@ Import ListNotations.
 Open Scope Z_scope.
 
 (* utils.scale_raw(val, shift): val * 2**shift on an int64/uint64 code array; Python integers
-   when a scaled code reaches 2^63; a float64 array when the factor 2**shift is a float *)
+   when a scaled code reaches 2^63; a float64 array when the factor 2**shift is a float.
+   (For codes of more than 53 bits and a negative shift the code returns exact rationals
+   instead of a float64 array: that region is outside the domain of every theorem here —
+   core formats have |code| < 2^52 — and is not modelled; the harness compares it with the
+   exact Spec only.) *)
 Definition scale_raw (codes : list Z) (shift : Z) : arr :=
   if 0 <? shift then
     (if existsb (fun c => 2^63 <=? Z.abs c * 2^shift) codes
